@@ -34,6 +34,9 @@ Clause(e) ==
      ELSE IF FromRows(e.data) # d2 THEN "data_effect"
      ELSE IF ~e.dtype_ok THEN "dtype_preserved"
      ELSE IF e.dmap # DmapJ(dm2) THEN "dmap_effect"
+     ELSE IF ev.op = "source_mask" /\ {<<e.srcmask[j][1], e.srcmask[j][2]>> : j \in 1..Len(e.srcmask)} # Dilate(d2, {<<ev.offsets[j][1], ev.offsets[j][2]>> : j \in 1..Len(ev.offsets)})
+          THEN "source_mask_is_dilation_of_support"
+     ELSE IF ev.op = "copy_check" /\ FromRows(e.copy_data) # FromRows(e.copy_expected) THEN "copy_is_independent_of_later_mutations"
      ELSE IF ~e.reads_ok THEN "attr_read_raises"
      ELSE IF ~ReadsOK(e, d2) THEN "attr_values"
      ELSE IF IsReassignLike(ev) /\ valid /\ ev.relabel /\ LabelSet(d2) # 1..Cardinality(LabelSet(d2)) THEN "relabel_gap_free"
